@@ -1,20 +1,16 @@
-//! verif-harness: drives the real samply code on generated cases (see /verif/DESIGN.md §2).
+//! Runner shared by the per-property harness binaries (`src/bin/cNN.rs`): drives the real samply code on generated cases (see /verif/DESIGN.md §2).
 //!
 //!   verif-harness <ID> --tier quick|thorough --seed N --out DIR     generate + execute
 //!   verif-harness <ID> --replay FILE --out DIR                      execute the cases of FILE
 //!
 //! Writes DIR/ops.txt (case blocks of operations), DIR/impl.out (case blocks of canonical outputs)
 //! and DIR/stats.json (measured input distribution).
-#![allow(dead_code)]
-mod common;
-mod props;
-
-use common::*;
+use crate::common::*;
 use std::collections::HashSet;
 use std::panic::{catch_unwind, AssertUnwindSafe};
 use std::sync::Mutex;
 
-fn main() {
+pub fn run_main(prop: &dyn Prop) {
     let args: Vec<String> = std::env::args().collect();
     if args.len() < 2 {
         eprintln!("usage: verif-harness <ID> [--tier T] [--seed N] [--out DIR] [--replay FILE] [--cases N]");
@@ -61,13 +57,10 @@ fn main() {
         }
         i += 1;
     }
-    let prop = match props::lookup(&id) {
-        Some(p) => p,
-        None => {
-            eprintln!("no harness for {id}");
-            std::process::exit(2);
-        }
-    };
+    if !id.eq_ignore_ascii_case(prop.id()) {
+        eprintln!("this binary drives {}, not {id}", prop.id());
+        std::process::exit(2);
+    }
     // Panics of the code under test are outcomes, not harness failures: silence the default hook
     // (the message is still captured where a property wants it).
     if std::env::var("VERIF_PANIC_TRACE").is_err() {
